@@ -14,6 +14,14 @@ from .lattice import short
 
 _CFG = {}
 ALLOWED_REFUSALS = ("ValueError", "NotImplementedError")
+INTERNAL = ("operand", "einstein", "einsum", "shape", "broadcast", "aligned", "dimension", "subscript", "index", "axis", "size ")
+
+
+def is_refusal(got):
+    """an explicit refusal (NotImplementedError, or a ValueError about the arguments) -- not an array-shape accident inside"""
+    if got["raised"] == "NotImplementedError":
+        return True
+    return got["raised"] == "ValueError" and not any(w in got.get("msg", "").lower() for w in INTERNAL)
 
 
 def _call(out, key, fn):
@@ -32,7 +40,8 @@ def _run_one(item):
     cfg, cutoff, n0 = _CFG["cfg"], _CFG["cutoff"], _CFG["n"]
     try:
         prog = sfx.build_program(n0, item["hist"])
-        st = sfx.engine(cfg, cutoff).run(prog).state
+        eng = sfx.engine(cfg, cutoff)
+        st = eng.run(prog).state
         n = st.num_modes
         out = {"ok": True, "n": n}
         if cfg.startswith("fock"):
@@ -83,6 +92,58 @@ def _run_one(item):
                     mu, V, tr, herm = sfx.fock_tensor_moments(rho, False, 1, rho.shape[0])
                     return [_tolist(mu), _tolist(V), tr, float(np.real(rho[-1, -1]))]
                 _call(out, "reduced_dm:" + key, reddm)
+        # quadrature distributions (bosonic: marginal, Fock: x_quad_values / p_quad_values) -> mean and variance on a grid
+        grid = np.linspace(-14.0, 14.0, 1401)
+        cgrid = np.linspace(-10.0, 10.0, 161)
+
+        def moments(pdf, grid=grid):
+            pdf = np.real(np.asarray(pdf, dtype=complex))
+            dx = grid[1] - grid[0]
+            z = float(pdf.sum() * dx)
+            m1 = float((grid * pdf).sum() * dx / z)
+            return [z, m1, float(((grid - m1) ** 2 * pdf).sum() * dx / z)]
+        for m in range(n):
+            for j, q in enumerate(item["modes"][m]["quad"]):
+                phi = math.atan2(float(sfx.fr(q[0][1])), float(sfx.fr(q[0][0])))
+                if cfg == "bosonic":
+                    _call(out, "marginal:%d:%d" % (m, j), lambda: moments(st.marginal(m, grid, phi)))
+                if cfg.startswith("fock") and abs(phi) < 1e-12 and m == 0:
+                    _call(out, "xquad:%d" % m, lambda: moments(st.x_quad_values(m, cgrid, cgrid), cgrid))
+                if cfg.startswith("fock") and abs(phi - math.pi / 2) < 1e-12 and m == n - 1:
+                    _call(out, "pquad:%d" % m, lambda: moments(st.p_quad_values(m, cgrid, cgrid), cgrid))
+            # first and second moments through poly_quad_expectation (vector of all x then all p)
+            def pq(which, second):
+                A = np.zeros((2 * n, 2 * n))
+                d = np.zeros(2 * n)
+                i = m + (n if which == "p" else 0)
+                if second:
+                    A[i, i] = 1.0
+                else:
+                    d[i] = 1.0
+                return float(np.real(st.poly_quad_expectation(A, d, 0.0)[0]))
+            for which in ("x", "p"):
+                _call(out, "polyquad1:%s:%d" % (which, m), lambda: pq(which, False))
+                _call(out, "polyquad2:%s:%d" % (which, m), lambda: pq(which, True))
+            if cfg == "gaussian":
+                _call(out, "displacement:%d" % m, lambda: [float(np.real(st.displacement([m])[0])), float(np.imag(st.displacement([m])[0]))])
+        _call(out, "fidelity_coherent0", lambda: float(np.real(st.fidelity_coherent([0.0] * n))))
+        # the state object for an explicit ordered mode selection (engine run option `modes` / backend.state(modes=...)):
+        # its k-th subsystem must be the k-th requested mode
+        if labels == list(range(n)):
+            for t in item["tuples"]:
+                ms = list(t["ms"])
+                if len(ms) < 2 and n > 1:
+                    continue
+                key = ",".join(map(str, ms))
+
+                def sel():
+                    red = eng.backend.state(modes=ms)
+                    res = []
+                    for k in range(len(ms)):
+                        res.append([[float(np.real(v)) for v in red.quad_expectation(k, 0.0)],
+                                    [float(np.real(v)) for v in red.quad_expectation(k, math.pi / 2)]])
+                    return res
+                _call(out, "select:" + key, sel)
         # Fock probabilities: vacuum and a few single excitations, and marginals vs all_fock_probs / reduced_dm
         pats = [[0] * n] + [[1 if i == j else 0 for i in range(n)] for j in range(n)] + [[2 if i == 0 else (1 if i == n - 1 else 0) for i in range(n)]]
         for p in pats:
@@ -118,14 +179,16 @@ def c16(chk):
     tier = chk.tier
     chk.rule = ("TLC (MC_Obs) emits for every reached lattice state and every ordered tuple of <= 2 (quick) / 3 (thorough) distinct modes the "
                 "exact reduced moments, det and quadratic forms; every BaseState method (mean_photon, quad_expectation, wigner, "
-                "number_expectation, parity_expectation, fidelity_vacuum, purity, reduced_gaussian / reduced_bosonic / reduced_dm, "
-                "fock_prob, all_fock_probs) of the Gaussian, bosonic and Fock state objects is called and compared with the exact value, "
+                "number_expectation, parity_expectation, fidelity_vacuum, fidelity_coherent, purity, reduced_gaussian / reduced_bosonic / "
+                "reduced_dm, fock_prob, all_fock_probs, poly_quad_expectation, displacement, marginal, x/p_quad_values, and the state object "
+                "returned for an explicit ordered mode selection) of the Gaussian, bosonic and Fock state objects is called and compared with the exact value, "
                 "with each other (cross-method identities) and across representations. A refusal by ValueError/NotImplementedError is "
                 "accepted, an answer for other modes is not. Non-trivial = (state, method, tuple) with an entangled/displaced state.")
     chk.assumptions = ["formulas applied last in the harness: parity = exp(-qf/2)/sqrt(det), vacuum fidelity = 2^n exp(-qfI/2)/sqrt(detI), "
                        "Wigner = exp(-(r-mu)^T V^-1 (r-mu)/2)/(2 pi sqrt(det V)) (hbar = 2)", "Fock comparisons within the truncation slack"]
     plans = [(3, 1, "q", "e3", 2, [("gaussian", None), ("bosonic", None)]), (2, 1, "q", "e2", 2, [("fock", 12), ("fockmixed", 10)]),
-             (3, 0, "q", "p3", 2, [("fock", 10)]), (3, 0, "q", "x3", 2, [("gaussian", None), ("bosonic", None), ("fock", 10)])]
+             (3, 0, "q", "p3", 2, [("fock", 10)]), (3, 0, "q", "x3", 2, [("gaussian", None), ("bosonic", None), ("fock", 10)]),
+             (3, 0, "q", "e3", 3, [("gaussian", None), ("bosonic", None), ("fock", 10), ("fockmixed", 8)])]
     if tier != "quick":
         plans = [(3, 2, "d", "e3", 3, [("gaussian", None), ("bosonic", None)]), (3, 1, "q", "e3", 3, [("gaussian", None), ("bosonic", None), ("fock", 9)]),
                  (2, 2, "q", "e2", 2, [("gaussian", None), ("bosonic", None), ("fock", 12), ("fockmixed", 10)]),
@@ -193,7 +256,7 @@ def judge(chk, cfg, cutoff, it, o):
     def check(method, key, got, want, slack, ms):
         chk.count(key=(hk, cfg, key), nontrivial=True)
         if isinstance(got, dict):
-            if got["raised"] not in ALLOWED_REFUSALS:
+            if not is_refusal(got):
                 chk.violation("UnexpectedError", dict(f0, method=method, error=got["raised"]), dict(det0, query=key, msg=got["msg"]))
             return
         g, w = np.asarray(got, dtype=float), np.asarray(want, dtype=float)
@@ -255,6 +318,36 @@ def judge(chk, cfg, cutoff, it, o):
         check("fock_prob", "fock_prob:vac", o.get("fock_prob:" + ",".join(["0"] * n)), fv, s2, None)
         if "purity" in o:
             check("purity", "purity", o["purity"], 1 / math.sqrt(F(full["det"])), s2, None)
+    for m, mo in enumerate(it["modes"]):
+        one = ts.get(str(it["st"]["modes"][m]))
+        for j, q in enumerate(mo["quad"]):
+            g = o.get("marginal:%d:%d" % (m, j))
+            if g is not None:
+                check("marginal", "marginal:%d:%d" % (m, j), g if isinstance(g, dict) else g[1:], [F(q[1]), F(q[2])], 1e-5, [m])
+        if one is not None:
+            mu1 = [F(x) for x in one["mu"]]
+            V1 = [[F(x) for x in r] for r in one["V"]]
+            for w, idx in (("x", 0), ("p", 1)):
+                g = o.get("%squad:%d" % (w, m))
+                if g is not None:
+                    check("%s_quad_values" % w, "%squad:%d" % (w, m), g if isinstance(g, dict) else g[1:], [mu1[idx], V1[idx][idx]], 40 * s2 + 1e-4, [m])
+                check("poly_quad_expectation", "polyquad1:%s:%d" % (w, m), o.get("polyquad1:%s:%d" % (w, m)), mu1[idx], s2, [m])
+                check("poly_quad_expectation", "polyquad2:%s:%d" % (w, m), o.get("polyquad2:%s:%d" % (w, m)), V1[idx][idx] + mu1[idx] ** 2, 3 * s2, [m])
+            if "displacement:%d" % m in o:
+                check("displacement", "displacement:%d" % m, o["displacement:%d" % m], [mu1[0] / 2, mu1[1] / 2], s2, [m])
+    fc0, fvv = o.get("fidelity_coherent0"), o.get("fidelity_vacuum")
+    if fc0 is not None and fvv is not None and not isinstance(fvv, dict):
+        check("fidelity_coherent", "fidelity_coherent0", fc0, fvv, 1e-9, None)
+    for key, t in ts.items():
+        g = o.get("select:" + key)
+        if g is None:
+            continue
+        ms = t["ms"]
+        K = len(ms)
+        mu = [F(x) for x in t["mu"]]
+        V = [[F(x) for x in r] for r in t["V"]]
+        want = [[[mu[k], V[k][k]], [mu[K + k], V[K + k][K + k]]] for k in range(K)]
+        check("state_for_modes", "select:" + key, g, want, s2, ms)
     afp = o.get("all_fock_probs")
     if isinstance(afp, dict) and "raised" not in afp:
         for m, mo in enumerate(it["modes"]):
